@@ -64,4 +64,14 @@ PROPS = {
                       "table level are a bounded stand-in.",
         "level_note": _PURE_NOTE,
     },
+    "C12": {
+        "targets": ["spowtd.regrid:regrid"],
+        "level_text": "Unbounded proof that regrid reports, for every pair of consecutive samples, exactly the multiples of the "
+                      "step between them (lower value included, upper excluded), each once and in order, at the point where the "
+                      "straight line through the two samples takes that value; brentq's sign-change precondition is an "
+                      "obligation at the call.",
+        "level_note": "Assumed contracts: scipy interp1d(kind='linear') is the piecewise-linear interpolant, brentq returns an "
+                      "exact root inside its bracket (floats as reals: the one-ulp-beside-a-level corner is a rounding question "
+                      "and is not decided). build_head_mapping's averaging is covered under C13.",
+    },
 }
